@@ -474,6 +474,15 @@ func templateForkOrderProg(plan *Tape) *Prog {
 				Binds: []Bind{{"x", v.src, true}, {"tag", lit(v.id), false}}})
 			top.Outs = append(top.Outs, Field{"o" + fmt.Sprint(n), Ty{Base: "int", Dims: map[bool]string{true: "a", false: "m"}[v.id == "USE_LISTF"]}})
 			top.Ret = append(top.Ret, Bind{"o" + fmt.Sprint(n), ref(v.id, "y"), false})
+			if plan.Draw(2) == 0 {
+				// a stage consuming the merged results of all forks of the mapped call
+				ct := Ty{Base: "int", Dims: map[bool]string{true: "a", false: "m"}[v.id == "USE_LISTF"]}
+				nm := "SUM_" + v.id
+				p.Stages = append(p.Stages, &StageDef{Name: nm, SrcKind: "comp", Ins: []Field{{"ys", ct}}, Outs: []Field{{"s", intT}}})
+				top.Calls = append(top.Calls, &CallDef{Callee: nm, Id: nm, Binds: []Bind{{"ys", ref(v.id, "y"), false}}})
+				top.Outs = append(top.Outs, Field{"s" + fmt.Sprint(n), intT})
+				top.Ret = append(top.Ret, Bind{"s" + fmt.Sprint(n), ref(nm, "s"), false})
+			}
 		}
 	}
 	if plan.Draw(2) == 0 {
